@@ -296,24 +296,24 @@ class Runtime:
     def _fault_label(self, exc: BaseException) -> Any:
         return self.classify(exc)
 
-    def run_script(self, script: list, u: str, a: int = 0) -> None:
+    def run_script(self, script: list, u: str, a: int = 0, o: int = 0) -> None:
         for op in script:
             if op.get("when", 0) not in (0, a):
                 continue
             if op["op"] == "call":
-                self.do_call(op, u)
+                self.do_call(dict(op, o=o) if op["o"] == -1 else op, u)
             elif op["op"] == "spawn":
                 self.sched.spawn(op["f"], copy_ctx=(op["a"] == 1))
                 self.emit("spawn", op["f"], 0, op["a"])
             elif op["op"] == "await":
                 raise RuntimeError("await in a sync script")
 
-    async def run_script_async(self, script: list, u: str, a: int = 0) -> None:
+    async def run_script_async(self, script: list, u: str, a: int = 0, o: int = 0) -> None:
         for op in script:
             if op.get("when", 0) not in (0, a):
                 continue
             if op["op"] == "call":
-                await self.do_call_async(op, u)
+                await self.do_call_async(dict(op, o=o) if op["o"] == -1 else op, u)
             elif op["op"] == "await":
                 self.emit("susp", 0)
                 await self.sched.suspension()
@@ -464,7 +464,7 @@ class Runtime:
         _h.emit("cond.in", c, o, a, 0, "", old, res)
         try:
             _h._maybe_fault(fid)
-            _h.run_script(_as_list(con["script"]), "cond", a)
+            _h.run_script(_as_list(con["script"]), "cond", a, o)
         except HarnessAbort:
             raise
         except BaseException as exc:  # noqa
@@ -492,7 +492,7 @@ class Runtime:
         _h.emit("cond.in", c, o, a, 0, "", old, res)
         try:
             _h._maybe_fault(fid)
-            await _h.run_script_async(_as_list(con["script"]), "cond", a)
+            await _h.run_script_async(_as_list(con["script"]), "cond", a, o)
         except HarnessAbort:
             raise
         except BaseException as exc:  # noqa
@@ -531,7 +531,7 @@ class Runtime:
         _h.emit("cap.in", s, o, a)
         try:
             _h._maybe_fault(fid)
-            _h.run_script(_as_list(snp["script"]), "cap", a)
+            _h.run_script(_as_list(snp["script"]), "cap", a, o)
         except HarnessAbort:
             raise
         except BaseException as exc:  # noqa
@@ -554,7 +554,7 @@ class Runtime:
         _h.emit("cap.in", s, o, a)
         try:
             _h._maybe_fault(fid)
-            await _h.run_script_async(_as_list(snp["script"]), "cap", a)
+            await _h.run_script_async(_as_list(snp["script"]), "cap", a, o)
         except HarnessAbort:
             raise
         except BaseException as exc:  # noqa
@@ -571,7 +571,7 @@ class Runtime:
         _h.emit("errf.in", c, o, a, 0, "", old, res)
         try:
             _h._maybe_fault(fid)
-            _h.run_script(_as_list(con["escript"]), "errf", a)
+            _h.run_script(_as_list(con["escript"]), "errf", a, o)
         except HarnessAbort:
             raise
         except BaseException as exc:  # noqa
@@ -616,7 +616,7 @@ class Runtime:
         fn, o, a, fid = self._body_common_in(f, self_obj, x)
         try:
             self._maybe_fault(fid)
-            self.run_script(_as_list(fn["script"]), "body", a)
+            self.run_script(_as_list(fn["script"]), "body", a, o)
         except HarnessAbort:
             raise
         except BaseException as exc:  # noqa
@@ -629,7 +629,7 @@ class Runtime:
         fn, o, a, fid = self._body_common_in(f, self_obj, x)
         try:
             self._maybe_fault(fid)
-            await self.run_script_async(_as_list(fn["script"]), "body", a)
+            await self.run_script_async(_as_list(fn["script"]), "body", a, o)
         except HarnessAbort:
             raise
         except BaseException as exc:  # noqa
